@@ -743,12 +743,12 @@ package spdxexp
 //@ func isCompatible
 //@   requires allLeaves(expressionPart) && allLeaves(allowed)
 //@   modifies nothing
-//@   ensures[C01,C07] result <==> (forall k :: 0 <= k && k < len(expressionPart) ==> covered(expressionPart[k].tree, allowed))
+//@   ensures[C01,C07,C10] result <==> (forall k :: 0 <= k && k < len(expressionPart) ==> covered(expressionPart[k].tree, allowed))
 //@   loop 0:
-//@     invariant[C01,C07] $i <= len(expressionPart) && forall k :: 0 <= k && k < $i ==> covered(expressionPart[k].tree, allowed)
+//@     invariant[C01,C07,C10] $i <= len(expressionPart) && forall k :: 0 <= k && k < $i ==> covered(expressionPart[k].tree, allowed)
 //@   loop 1:
-//@     invariant[C01,C07] $i0 < len(expressionPart) && expLicense == expressionPart[$i0] && forall k :: 0 <= k && k < $i0 ==> covered(expressionPart[k].tree, allowed)
-//@     invariant[C01,C07] $i <= len(allowed) && forall j :: 0 <= j && j < $i ==> !matchT(expLicense.tree, allowed[j].tree)
+//@     invariant[C01,C07,C10] $i0 < len(expressionPart) && expLicense == expressionPart[$i0] && forall k :: 0 <= k && k < $i0 ==> covered(expressionPart[k].tree, allowed)
+//@     invariant[C01,C07,C10] $i <= len(allowed) && forall j :: 0 <= j && j < $i ==> !matchT(expLicense.tree, allowed[j].tree)
 //@ end
 
 //@ func (*node).expand
